@@ -42,9 +42,11 @@ class C17(Prop):
           'GDevice, TDevice, ADevice with user constraints, charge-only / discharge-only SDevice), with and without cumulative bounds x 1-4 '
           'conduits (two-ratio sets when 2) x horizon n = 1,2,3,.. (8 quick, 31 thorough) x conduit matrices: split of a wrapped-feasible flow, '
           'equal split, in conduit box, one entry with the wrong direction / beyond a bound, arbitrary x scalar / per-slot / per-conduit prices; '
+          'WindowDevice wrapped in 8 % of the cases, oracle only (not modelled); a re-read family: adaptor.constraints, assign device.cbounds, adaptor.constraints again; '
           'non-trivial: >= 2 conduits and the wrapped device has cumulative bounds or constraints')
   sizes = {'quick': 260, 'thorough': 2200}
   assumptions = ['the wrapped device is one-directional (the constructor raises otherwise); k >= 1 conduits',
+                 'projection: the oracle requires shape, conduit bounds and slot totals = wrapped projection of the totals (not an equal split)',
                  'oracle tolerances: 1e-9 relative on costs / marginal costs, 1e-9 absolute slack on membership (1e-7 for the equal split, which divides by k)']
 
   def __init__(self):
@@ -56,7 +58,11 @@ class C17(Prop):
     out = []
     for _ in range(count):
       n = gen.pick_n(rng, tier)
-      t = G.gen_mf(rng, tier, n, 'm1', kmax=4, classes=CLASSES, p_ratio=0.25)
+      window = rng.random() < 0.08
+      if window:
+        t = gen_window_mf(rng, tier, n)
+      else:
+        t = G.gen_mf(rng, tier, n, 'm1', kmax=4, classes=CLASSES, p_ratio=0.25)
       d = t['dev']; k = len(t['flows'])
       lbx, hbx = gen.tree_box(t, n)
       x = G.wrapped_flow(rng, d, n)
@@ -65,6 +71,10 @@ class C17(Prop):
         r0, r1 = Fraction(t['ratios'][0]), Fraction(t['ratios'][1])
         v = [Fraction(round(xi/(r0 + r1)*8), 8) for xi in x]
         mats.append([[vi*r1 for vi in v], [vi*r0 for vi in v]])
+        if t.get('ctype') == 'ineq':                 # both sides of the ratio half-space
+          dlt = C.dy(rng, 0, 1) + Fraction(1, 4)
+          mats.append([[a + dlt if a >= 0 else a for a in mats[0][0]], list(mats[0][1])])
+          mats.append([list(mats[0][0]), [a + dlt if a >= 0 else a for a in mats[0][1]]])
       mats.append(G.split(rng, x, k))
       mats.append([[xi/Fraction(1 << (k - 1).bit_length()) for xi in x] for _ in range(k)] if k & (k - 1) == 0 else G.split(rng, x, k))
       flat = gen.gen_flow(rng, lbx, hbx)
@@ -76,7 +86,8 @@ class C17(Prop):
       mats.append(P)
       mats.append([[C.dy(rng, -5, 5) for _ in range(n)] for _ in range(k)])
       out.append({'tree': t, 'n': n, 'probes': [[[C.fs(v) for v in row] for row in M] for M in mats],
-                  'P': gen.gen_price_mat(rng, k, n), 'x': [C.fs(v) for v in x], '_flat': rng.random() < 0.5})
+                  'P': gen.gen_price_mat(rng, k, n), 'x': [C.fs(v) for v in x], '_flat': rng.random() < 0.5,
+                  'oracle_only': window, 'reread': rng.randrange(3)})
     return out
 
   # ------------------------------------------------------------ T2
@@ -88,6 +99,8 @@ class C17(Prop):
     h['ratio'] += 1 if t.get('ratios') else 0
     h['with_constraints'] += 1 if (d.get('cbs') or d.get('ucons') or d['cls'] == 'SDevice') else 0
     h['producer'] += 1 if any(Fraction(v) < 0 for v in d['lb']) else 0
+    if case.get('oracle_only'):
+      return []                       # WindowDevice has no model: oracle only
     obj = build.build_tree(t)
     p = build.price(case['P'])
     ops = [Op({'op': 'tree.rows', 'tree': t, 'n': n}, lambda: obj.shape[0], TOL, 'rows'),
@@ -108,14 +121,19 @@ class C17(Prop):
     cls = d['cls']
     who = '%s over %s, %d conduits, n=%d' % ('TwoRatioMFDeviceSet' if t.get('ratios') else 'MFDeviceSet', cls, k, n)
     try:
-      obj = build.build_tree(t)
+      obj = make_adaptor(build_wrapped(d, t['id']), t)
     except Exception as e:
       return [{'key': {'cls': cls, 'kind': 'construct', 'exc': type(e).__name__},
                'detail': '%s cannot be constructed: %s: %s; wrapped bounds lb=%s hb=%s' % (who, type(e).__name__, str(e)[:160], d['lb'], d['hb'])}]
-    dev = build.build_block_device(d, t['id'])     # an independent instance of the wrapped device
+    dev = build_wrapped(d, t['id'])     # an independent instance of the wrapped device
     p = build.price(case['P'])
     pm = p*np().ones((k, n))
     fails = []
+    def ratio_ok(Fm):
+      if not t.get('ratios'):
+        return True
+      r0, r1 = Fraction(t['ratios'][0]), Fraction(t['ratios'][1])
+      return all(G.holds(t.get('ctype', 'eq'), Fm[0][i]*r0 - Fm[1][i]*r1) for i in range(n))
     try:
       bx = np().asarray(obj.bounds, dtype=float)
       if bx.shape != (k*n, 2):
@@ -130,6 +148,8 @@ class C17(Prop):
                    who, j // n, j % n, bx[j].tolist(), want[j].tolist(), 'producer (low, 0)' if neg else 'consumer (0, high)', d['lb'], d['hb'])}]
       for P in case['probes']:
         S = mat(P); cs = S.sum(axis=0)
+        if cls == 'WindowDevice' and abs(cs.sum()) < 1e-12:
+          continue                     # known C10 finding (centre of mass of a zero total): not this property
         # cost: nothing but the wrapped cost of the total flow (+ the numeraire term)
         c0, w0 = scalar(obj.cost(S, 0)), scalar(dev.cost(cs, 0))
         if not close(c0, w0):
@@ -141,30 +161,39 @@ class C17(Prop):
         wg = np().asarray(dev.deriv(cs, 0), dtype=float).reshape(-1)
         if g.shape != (k, n) or not all(close(g[r], wg + pm[r]) for r in range(k)):
           fails.append({'key': {'cls': cls, 'kind': 'deriv'}, 'detail': '%s: deriv(S, P) = %s but wrapped marginal cost at the total flow is %s (+ row prices) at S=%s P=%s' % (who, g.tolist(), wg.tolist(), json.dumps(P), json.dumps(case['P']))}); break
+        # a flat flow vector and the shaped matrix are the same input
+        Sf = S.reshape(-1)
+        if not (close(scalar(obj.cost(Sf, p)), cp) and close(obj.deriv(Sf, p), g) and close([v for _, v in impl_cons(obj, Sf)], [v for _, v in impl_cons(obj, S)])):
+          fails.append({'key': {'cls': cls, 'kind': 'flat-vs-shaped'}, 'detail': '%s: cost / deriv / constraint values differ between the flat and the shaped form of S=%s' % (who, json.dumps(P))}); break
         # feasibility: adaptor box + constraints  <=>  conduit direction/bounds AND total flow feasible for the wrapped device (AND ratio)
         got_c, worst = impl_verdict(obj.constraints, S)
         got = in_box(bx, S) and got_c
         dev_ok = in_box(dev.bounds, cs) and impl_verdict(dev.constraints, cs)[0]
-        spec = conduit_spec(d, fmat(P), n) and dev_ok
-        if t.get('ratios'):
-          r0, r1 = Fraction(t['ratios'][0]), Fraction(t['ratios'][1]); F = fmat(P)
-          spec = spec and all(G.holds(t.get('ctype', 'eq'), F[0][i]*r0 - F[1][i]*r1) for i in range(n))
+        spec = conduit_spec(d, fmat(P), n) and dev_ok and ratio_ok(fmat(P))
         self.hist['feasible_probes' if spec else 'infeasible_probes'] += 1
         if got != spec:
           fails.append({'key': {'cls': cls, 'kind': 'feasible-set'},
-                        'detail': '%s: conduit matrix %s is %s for the adaptor (bounds box %s, constraints %s) but conduit direction/bounds %s and total flow %s for the wrapped device; lb=%s hb=%s cbs=%s' % (
+                        'detail': '%s: conduit matrix %s is %s for the adaptor (bounds box %s, constraints %s) but conduit direction/bounds %s, total flow %s for the wrapped device%s; lb=%s hb=%s cbs=%s' % (
                           who, json.dumps(P), 'feasible' if got else 'infeasible', 'ok' if in_box(bx, S) else 'violated', 'ok' if got_c else 'violated #%d %s %.6g' % worst,
-                          'ok' if conduit_spec(d, fmat(P), n) else 'violated', 'feasible' if dev_ok else 'infeasible', d['lb'], d['hb'], d.get('cbs'))}); break
-        # projection keeps totals and splits equally
+                          'ok' if conduit_spec(d, fmat(P), n) else 'violated', 'feasible' if dev_ok else 'infeasible',
+                          '' if not t.get('ratios') else ', ratio %s %s %s' % (t['ratios'], t.get('ctype'), 'ok' if ratio_ok(fmat(P)) else 'violated'),
+                          d['lb'], d['hb'], d.get('cbs'))}); break
+        # device-level projection: a flow of the adaptor's shape, inside the conduit bounds, whose slot totals are the wrapped
+        # projection of the slot totals; an input already inside all bounds keeps its totals
         pr = np().asarray(obj.project(S), dtype=float)
         wp = np().asarray(dev.project(cs), dtype=float).reshape(-1)
-        if pr.shape != (k, n) or not close(pr.sum(axis=0), wp, 1e-7) or not all(close(pr[r], pr[0]) for r in range(k)):
-          fails.append({'key': {'cls': cls, 'kind': 'project'}, 'detail': '%s: project(S) = %s does not split the wrapped projection %s equally, S=%s' % (who, pr.tolist(), wp.tolist(), json.dumps(P))}); break
+        why = None
+        if pr.shape != (k, n): why = 'has shape %s' % (pr.shape,)
+        elif not close(pr.sum(axis=0), wp, 1e-7): why = 'has slot totals %s, the wrapped projection of the totals is %s' % (pr.sum(axis=0).tolist(), wp.tolist())
+        elif not in_box(bx, pr, 1e-7): why = 'leaves the conduit bounds'
+        elif in_box(bx, S) and in_box(dev.bounds, cs) and not close(pr.sum(axis=0), cs, 1e-7): why = 'changes the slot totals %s of an input inside all bounds' % cs.tolist()
+        if why:
+          fails.append({'key': {'cls': cls, 'kind': 'project'}, 'detail': '%s: project(S) = %s %s; S=%s' % (who, pr.tolist(), why, json.dumps(P))}); break
       if fails:
         return fails
       # surjectivity: the equal split of a feasible wrapped flow is feasible and costs the same
       x = np().array([C.pf(v) for v in case['x']])
-      if in_box(dev.bounds, x, 0) and impl_verdict(dev.constraints, x)[0] and not t.get('ratios'):
+      if in_box(dev.bounds, x, 0) and impl_verdict(dev.constraints, x)[0] and not t.get('ratios') and not (cls == 'WindowDevice' and abs(x.sum()) < 1e-12):
         self.hist['equal_splits_checked'] += 1
         E = np().tile(x/k, (k, 1))
         okc, worst = impl_verdict_tol(obj.constraints, E, 1e-7)
@@ -175,10 +204,51 @@ class C17(Prop):
         elif not close(scalar(obj.cost(E, 0)), scalar(dev.cost(x, 0)), 1e-7):
           fails.append({'key': {'cls': cls, 'kind': 'equal-split-cost'},
                         'detail': '%s: equal split of %s costs %.10g, the wrapped device %.10g' % (who, case['x'], scalar(obj.cost(E, 0)), scalar(dev.cost(x, 0)))})
+      if fails:
+        return fails
+      fails += self.reread(case, who, ratio_ok)
     except Exception as e:
       import traceback
       fails.append({'key': {'cls': cls, 'kind': 'raised', 'exc': type(e).__name__}, 'detail': '%s: %s: %s | %s' % (who, type(e).__name__, str(e)[:200], traceback.format_exc()[-300:])})
     return fails
+
+  def reread(self, case, who, ratio_ok):
+    """read adaptor.constraints, re-assign the wrapped device's cumulative bounds through its setter, read again: the adaptor
+    must follow the wrapped device's CURRENT constraints (a pure re-expression keeps no copy of them)."""
+    t, n = case['tree'], case['n']
+    d = t['dev']; k = len(t['flows']); cls = d['cls']
+    lb = [Fraction(v) for v in d['lb']]; hb = [Fraction(v) for v in d['hb']]
+    lo, hi = sum(lb, Fraction(0)), sum(hb, Fraction(0))
+    if hi <= lo:
+      return []
+    w = hi - lo
+    newcb = [(lo + w*Fraction(3, 8), lo + w*Fraction(5, 8)), (lo + w/2, hi + 1), (lo - 1, lo + w/4)][case.get('reread', 0) % 3]
+    inner = build_wrapped(d, t['id'])
+    obj = make_adaptor(inner, t)
+    first = obj.constraints
+    n_first = len(first)
+    try:
+      inner.cbounds = (float(newcb[0]), float(newcb[1]))
+    except Exception:
+      return []                          # the wrapped class refuses the assignment: nothing to re-read
+    self.hist['rereads'] = self.hist.get('rereads', 0) + 1
+    second = obj.constraints
+    bx = np().asarray(obj.bounds, dtype=float)
+    xs = [[a + (b - a)*f for a, b in zip(lb, hb)] for f in (Fraction(1, 2), Fraction(0), Fraction(1), Fraction(1, 4))]
+    probes = [[[xi/k for xi in x] for _ in range(k)] for x in xs] + [fmat(P) for P in case['probes'][:3]]
+    for Fm in probes:
+      S = np().array([[float(v) for v in row] for row in Fm]); cs = S.sum(axis=0)
+      got_c, worst = impl_verdict_tol(second, S, 1e-7)
+      got = in_box(bx, S, 1e-7) and got_c
+      dev_ok = in_box(inner.bounds, cs, 1e-7) and impl_verdict_tol(inner.constraints, cs, 1e-7)[0]
+      spec = conduit_spec(d, Fm, n) and dev_ok and ratio_ok(Fm)
+      if got != spec:
+        return [{'key': {'cls': cls, 'kind': 'reread-after-setter'},
+                 'detail': ('%s: after reading adaptor.constraints (%d entries) and assigning device.cbounds = (%s, %s) the adaptor (%d entries) says the conduit matrix %s is %s, '
+                            'but its total %s is %s for the wrapped device as it is now (old cbs=%s)') % (
+                              who, n_first, newcb[0], newcb[1], len(second), [[str(v) for v in row] for row in Fm], 'feasible' if got else 'infeasible',
+                              cs.tolist(), 'feasible' if dev_ok else 'infeasible', d.get('cbs'))}]
+    return []
 
   def nontrivial(self, case):
     t = case['tree']; d = t['dev']
@@ -186,6 +256,41 @@ class C17(Prop):
 
   def extra_evidence(self):
     return {'input_distribution': self.hist}
+
+
+def build_wrapped(d, ident):
+  """the wrapped device from its description (WindowDevice has no model, hence no entry in build.py)."""
+  if d['cls'] == 'WindowDevice':
+    dk = C.repo()
+    return dk.WindowDevice(ident, d['n'], build.py_bounds(d), C.pf(d['prm']['w']), build.py_cbounds(d), c=C.pf(d['prm']['c']))
+  return build.build_block_device(d, ident)
+
+
+def make_adaptor(dev, t):
+  dk = C.repo()
+  if t.get('ratios'):
+    return dk.TwoRatioMFDeviceSet(dev, list(t['flows']), [C.pf(x) for x in t['ratios']], t.get('ctype', 'eq'))
+  return dk.MFDeviceSet(dev, list(t['flows']))
+
+
+def gen_window_mf(rng, tier, n):
+  """an adaptor over a WindowDevice (oracle only): a consumer or producer with a non-zero total flow."""
+  sign = rng.choice(['+', '-'])
+  for _ in range(20):
+    lb, hb = gen.gen_bounds(rng, n, sign=sign, zero_width=0.1)
+    if sum(hb, Fraction(0)) != sum(lb, Fraction(0)):
+      break
+  d = {'cls': 'WindowDevice', 'n': n, 'lb': [C.fs(v) for v in lb], 'hb': [C.fs(v) for v in hb], 'cbs': [],
+       'prm': {'w': C.fs(C.dy(rng, 0, n)), 'c': C.fs(C.dy(rng, 0, 2))}, '_py': {'bform': 'table', 'cform': None}}
+  if rng.random() < 0.5:
+    cbs, form = gen.gen_cbounds(rng, n, lb, hb)
+    d['cbs'] = [[C.fs(c[0]), C.fs(c[1]), c[2], c[3]] for c in cbs]
+    d['_py']['cform'] = '4tuples'
+  k = rng.randint(1, 4)
+  t = {'k': 'mf', 'id': 'w1', 'dev': d, 'flows': G.FLOW_NAMES[:k], 'ratios': None}
+  if k == 2 and rng.random() < 0.25:
+    t['ratios'] = [C.fs(C.dy(rng, 1, 3)), C.fs(C.dy(rng, 1, 3))]; t['ctype'] = rng.choice(['eq', 'ineq'])
+  return t
 
 
 def impl_verdict_tol(cons, S, tol):
